@@ -497,3 +497,96 @@ _jobs_base2 = jobs
 
 def jobs(tier):
     return _jobs_base2(tier) + mc_jobs(tier)
+
+
+# ======================================================================
+# bounded companions: the conversion functions with the REAL callee bodies, digit strings of bounded length,
+# complete unwinding, against a ghost-free Horner spec function.  They do not depend on loop contracts or
+# woven ghost code, so a restructured implementation is still checked (labelled bounded, never counted as proof).
+# ======================================================================
+NB = 21
+BPRE = '''
+_Bool vf_canary;
+#define NB %d
+#define OLD(x) __CPROVER_old(x)
+#define RET __CPROVER_return_value
+typedef unsigned __int128 WIDE;
+#define ISDIG(c) ((c) >= '0' && (c) <= '9')
+/* value of the digit string p[0..n), n <= NB, in 128 bits (cannot wrap: 10^21 < 2^70) */
+static inline WIDE vf_horner(const char* p, size_t n)
+{
+  WIDE h = 0;
+  for (size_t i = 0; i < NB; ++i) if (i < n) h = h * 10 + (WIDE)(p[i] - '0');
+  return h;
+}
+const char* g_digits; size_t g_ndigits;
+''' % NB
+
+H_BCONV = '''
+size_t w_n; unsigned char w_b[24]; _Bool w_ret;
+int main(void)
+{
+  size_t n; __CPROVER_assume(n >= 1 && n <= NB + 1);
+  char* buf = malloc(n); __CPROVER_assume(buf != 0);
+  %(ct)s r = 0;
+  struct $REC{std::basic_string_view<char>} sv; sv._M_str = buf; sv._M_len = n;
+  size_t skip = %(skip)s;
+  __CPROVER_assume(n - skip >= 1 && n - skip <= NB);
+  for (int i = 0; i < NB; ++i) if (skip + i < n) __CPROVER_assume(ISDIG(buf[skip + i]));
+  w_n = n;
+  for (int i = 0; i < 24; ++i) if (i < n) w_b[i] = (unsigned char)buf[i];
+  g_digits = buf + skip; g_ndigits = n - skip;
+  w_ret = $ENTRY(&r, sv);
+  return 0;
+}
+'''
+
+
+def bconv_contract(ctype, kind, mx, negmax):
+    pre = '__CPROVER_w_ok(result, sizeof(%s)) && *result == 0 && __CPROVER_r_ok(input._M_str, input._M_len) && g_ndigits >= 1 && g_ndigits <= NB' % ctype
+    if kind == 'csig':
+        pre += " && input._M_len >= 2 - ((input._M_str[0] == '-' || input._M_str[0] == '+') ? 0 : 1) && g_digits == input._M_str + ((input._M_str[0] == '-' || input._M_str[0] == '+') ? 1 : 0)" \
+               " && g_ndigits == input._M_len - ((input._M_str[0] == '-' || input._M_str[0] == '+') ? 1 : 0)"
+    else:
+        pre += ' && g_digits == input._M_str && g_ndigits == input._M_len'
+    c = Contract(R(pre, 'bconv-pre'), A('*result'))
+    H = 'vf_horner(g_digits, g_ndigits)'
+    pos = ['RET == (%s <= (WIDE)%s)' % (H, mx), 'RET ==> ((WIDE)*result == %s && *result >= 0)' % H]
+    neg = ['RET == (%s <= (WIDE)%s)' % (H, negmax), 'RET ==> ((__int128)*result == -(__int128)%s)' % H]
+    if kind in ('cuns', 'cpos'):
+        c.add(E(pos[0], 'BOUNDED-OVERFLOW-REPORT-EXACT', ('C15',)), E(pos[1], 'BOUNDED-VALUE-EXACT', ('C15',)))
+    elif kind == 'cneg':
+        c.add(E(neg[0], 'BOUNDED-OVERFLOW-REPORT-EXACT', ('C15',)), E(neg[1], 'BOUNDED-VALUE-EXACT', ('C15',)))
+    else:
+        isneg = "(OLD(input._M_str[0]) == '-')"
+        c.add(E('%s ? (%s) : (%s)' % (isneg, neg[0], pos[0]), 'BOUNDED-OVERFLOW-REPORT-EXACT', ('C15',)),
+              E('%s ? (%s) : (%s)' % (isneg, neg[1], pos[1]), 'BOUNDED-VALUE-EXACT', ('C15',)))
+    c.add(E('!RET || vf_canary', 'canary_ok'))
+    c.add(E('RET || vf_canary', 'canary_fail'))
+    return c
+
+
+def bconv_jobs(tier):
+    out = []
+    for k, t, ct, sg, mx in TYPES:
+        kinds = ('cneg', 'cpos', 'csig') if sg else ('cuns',)
+        for kind in kinds:
+            if tier != 'thorough' and kind == 'csig':
+                continue
+            negmax = lit(NEG_MAX[k], UNS[k]) if sg else '0'
+            skip = "((n >= 1 && (buf[0] == '-' || buf[0] == '+')) ? 1 : 0)" if kind == 'csig' else '0'
+            j = Job('b_%s_%s' % (kind, k), NAME, '%s_%s' % (kind, k), bconv_contract(ct, kind, mx, negmax), ('C15',), prelude=BPRE,
+                    harness=H_BCONV % {'ct': ct, 'skip': skip}, stubs=[], unwind=NB + 5,
+                    bounded='digit strings of at most %d digits, real accumulate_digits/accumulate_digit bodies, complete unwinding (unwinding assertions on)' % NB,
+                    expect_fail_canary=('canary_ok', 'canary_fail'), timeout=300,
+                    replay={'kind': 'conv', 'ctype': ct, 'mode': {'cneg': 'neg', 'cpos': 'pos', 'cuns': 'pos', 'csig': 'sig'}[kind], 'max': mx, 'negmax': negmax},
+                    desc='BOUNDED companion of %s_%s' % (kind, k))
+            out.append(j)
+    return out
+
+
+_jobs_base3 = jobs
+
+
+def jobs(tier):
+    return _jobs_base3(tier) + bconv_jobs(tier)
